@@ -48,13 +48,15 @@ META_ID = 11
 # the --warc-file prefix: any legal file name.  (The model identifies files by number; the name class is a parameter
 # of the scenario only.)  'class': characters that glob takes for a character class; 'blank': the CDX delimiter
 #             'slash': the prefix names a directory (archive ".warc.gz" inside it: a dot file); 'bytes': not UTF-8
-PREFIX = {'plain': 'a', 'class': 'a[1]', 'blank': 'a b', 'star': 'a*', 'slash': 'sub/', 'bytes': 'a\udce9'}
+#             'newline': a line break in the name (the CDX line delimiter)
+PREFIX = {'plain': 'a', 'class': 'a[1]', 'blank': 'a b', 'star': 'a*', 'slash': 'sub/', 'bytes': 'a\udce9',
+          'newline': 'a\nb'}
 
 
 def file_id(name):
     """Model file id of an archive name: a.warc[.gz] -> 0, a-0000N -> N + 1, a-meta -> 11."""
     b = os.path.basename(str(name))
-    for pf in ('a[1]', 'a b', 'a*', 'a\udce9'):
+    for pf in ('a[1]', 'a b', 'a*', 'a\udce9', 'a\nb'):
         if b.startswith(pf):
             b = 'a' + b[len(pf):]
     if b.startswith(('.warc', '-0', '-meta')) and os.path.basename(os.path.dirname(str(name))) == 'sub':
